@@ -141,6 +141,11 @@ func Obj(info *types.Info, e ast.Expr) types.Object {
 // reassigned lists the variables that are assigned (or inc/dec-ed, or have their address taken) somewhere
 // other than at their definition; filled by IndexAssignments.
 var reassigned = map[types.Object]bool{}
+
+// nAssign counts those re-assignments, initVal holds the expression a variable is defined with (`v := e`,
+// `var v = e`); both filled by IndexAssignments.
+var nAssign = map[types.Object]int{}
+var initVal = map[types.Object]ast.Expr{}
 var indexed = map[*core.Program]bool{}
 
 // IndexAssignments records, once per loaded program, which variables of the module are re-assigned.
@@ -158,6 +163,7 @@ func IndexAssignments(p *core.Program) {
 			if id, ok := ast.Unparen(e).(*ast.Ident); ok {
 				if o := info.Uses[id]; o != nil {
 					reassigned[o] = true
+					nAssign[o]++
 				}
 			}
 		}
@@ -165,8 +171,17 @@ func IndexAssignments(p *core.Program) {
 			ast.Inspect(f, func(n ast.Node) bool {
 				switch x := n.(type) {
 				case *ast.AssignStmt:
-					for _, l := range x.Lhs {
+					for i, l := range x.Lhs {
 						mark(l) // a use on the left-hand side is a re-assignment (definitions are not uses)
+						if id, ok := l.(*ast.Ident); ok && info.Defs[id] != nil && len(x.Lhs) == len(x.Rhs) {
+							initVal[info.Defs[id]] = x.Rhs[i]
+						}
+					}
+				case *ast.ValueSpec:
+					for i, id := range x.Names {
+						if o := info.Defs[id]; o != nil && i < len(x.Values) {
+							initVal[o] = x.Values[i]
+						}
 					}
 				case *ast.IncDecStmt:
 					mark(x.X)
